@@ -865,8 +865,273 @@ fn hostile_one(c: &mut Ctx, fam: &str, idx: u64, text: &[u8], kind: &str) {
     c.count(&format!("hostile_{}", kind), 1);
 }
 
+
+// ------------------------------------------------------------ field limits ----
+
+/// One way of writing the octets of a character string.
+fn spell_charstr(rng: &mut Rng, s: &[u8], mode: usize) -> String {
+    let esc_at = if s.is_empty() { usize::MAX } else { rng.below(s.len()) };
+    let mut t = String::new();
+    let quoted = matches!(mode, 1 | 2 | 4 | 6);
+    if quoted {
+        t.push('"');
+    }
+    for (i, &b) in s.iter().enumerate() {
+        let special = !(b.is_ascii_alphanumeric() || b == b'-' || b == b'_' || (quoted && b == b' '));
+        match mode {
+            // every octet as a decimal escape
+            5 | 6 => t.push_str(&format!("\\{:03}", b)),
+            // one octet as a decimal escape
+            3 | 4 if i == esc_at => t.push_str(&format!("\\{:03}", b)),
+            // one octet as a character escape
+            7 if i == esc_at && b.is_ascii_alphabetic() => {
+                t.push('\\');
+                t.push(b as char);
+            }
+            _ if special => t.push_str(&format!("\\{:03}", b)),
+            _ => t.push(b as char),
+        }
+    }
+    if quoted {
+        t.push('"');
+    }
+    if t.is_empty() {
+        t.push_str("\"\"");
+    }
+    t
+}
+
+fn charstr_content(rng: &mut Rng, len: usize, mode: usize) -> Vec<u8> {
+    (0..len)
+        .map(|i| match mode {
+            2 if i % 17 == 5 => b' ',
+            5 | 6 => rng.u8(),
+            _ => *rng.pick(b"abcxyzABC0189-_"),
+        })
+        .collect()
+}
+
+/// One record whose variable-length field sits on, just below or just above the limit its type
+/// puts on it (character strings 255 octets, NSEC3 salts and hashes 255, CAA tags 255, RDATA
+/// 65535), written in every spelling the format offers. At or below the limit the reader must
+/// give exactly that record; above it the reader must refuse - a value that the type cannot
+/// hold must not come out (it would panic or write a wrong length octet when composed).
+fn field_limit_case(c: &mut Ctx, fam: &str, idx: u64, rng: &mut Rng) {
+    use crate::refimpl::b64 as rb;
+    use domain::base::rdata::ComposeRecordData;
+    use domain::zonefile::inplace::Entry;
+    let len = *rng.pick(&[0usize, 1, 2, 63, 64, 127, 128, 200, 253, 254, 255, 255, 255, 256, 256, 256, 257, 258, 300, 511, 512]);
+    let mode = rng.below(8);
+    let kind = rng.below(11);
+    let cs = |v: &[u8]| -> Vec<u8> {
+        let mut o = vec![v.len() as u8];
+        o.extend_from_slice(v);
+        o
+    };
+    // (type mnemonic, RDATA text, expected RDATA or None for "must be refused", what the field is)
+    let (ty, text, want, what): (&str, String, Option<Vec<u8>>, &str) = match kind {
+        0 | 1 => {
+            // TXT: the string under test among others
+            let s = charstr_content(rng, len, mode);
+            let before = rng.below(3);
+            let after = rng.below(3);
+            let mut t = String::new();
+            let mut rd = Vec::new();
+            let mut all_ok = len <= 255;
+            for _ in 0..before {
+                let m = rng.below(8);
+                let l = *rng.pick(&[0usize, 3, 255, 254]);
+                let o = charstr_content(rng, l, m);
+                t.push_str(&spell_charstr(rng, &o, m));
+                t.push(' ');
+                rd.extend(cs(&o));
+            }
+            t.push_str(&spell_charstr(rng, &s, mode));
+            rd.extend(if len <= 255 { cs(&s) } else { vec![] });
+            for _ in 0..after {
+                let m = rng.below(8);
+                let l = *rng.pick(&[0usize, 3, 255, 256]);
+                let o = charstr_content(rng, l, m);
+                t.push(' ');
+                t.push_str(&spell_charstr(rng, &o, m));
+                if l > 255 {
+                    all_ok = false;
+                } else {
+                    rd.extend(cs(&o));
+                }
+            }
+            ("TXT", t, if all_ok { Some(rd) } else { None }, "character string of TXT")
+        }
+        2 => {
+            let s = charstr_content(rng, len, mode);
+            let os = charstr_content(rng, 3, 0);
+            let first = rng.bool();
+            let (a, b) = if first { (&s, &os) } else { (&os, &s) };
+            let t = format!("{} {}", spell_charstr(rng, a, if first { mode } else { 0 }), spell_charstr(rng, b, if first { 0 } else { mode }));
+            let mut rd = cs(a);
+            rd.extend(cs(b));
+            ("HINFO", t, if len <= 255 { Some(rd) } else { None }, "character string of HINFO")
+        }
+        3 => {
+            // NAPTR order pref flags services regexp replacement
+            let s = charstr_content(rng, len, mode);
+            let which = rng.below(3);
+            let short = b"u".to_vec();
+            let f: [&[u8]; 3] = [if which == 0 { &s } else { &short }, if which == 1 { &s } else { &short }, if which == 2 { &s } else { &short }];
+            let t = format!("10 20 {} {} {} .", spell_charstr(rng, f[0], if which == 0 { mode } else { 1 }), spell_charstr(rng, f[1], if which == 1 { mode } else { 1 }), spell_charstr(rng, f[2], if which == 2 { mode } else { 1 }));
+            let mut rd = vec![0, 10, 0, 20];
+            for x in f {
+                rd.extend(cs(x));
+            }
+            rd.push(0);
+            ("NAPTR", t, if len <= 255 { Some(rd) } else { None }, "character string of NAPTR")
+        }
+        4 | 5 => {
+            // NSEC3PARAM / NSEC3 salt
+            let salt = rng.bytes(len);
+            let st = if len == 0 { "-".to_string() } else if rng.bool() { rb::enc16(&salt) } else { rb::enc16(&salt).to_lowercase() };
+            if kind == 4 {
+                let mut rd = vec![1, 0, 0, 5, len as u8];
+                rd.extend_from_slice(&salt);
+                ("NSEC3PARAM", format!("1 0 5 {}", st), if len <= 255 { Some(rd) } else { None }, "salt of NSEC3PARAM")
+            } else {
+                let h = rng.bytes(20);
+                let mut rd = vec![1, 1, 0, 5, len as u8];
+                rd.extend_from_slice(&salt);
+                rd.push(20);
+                rd.extend_from_slice(&h);
+                rd.extend_from_slice(&[0, 1, 0x40]);
+                ("NSEC3", format!("1 1 5 {} {} A", st, rb::enc32hex(&h)), if len <= 255 { Some(rd) } else { None }, "salt of NSEC3")
+            }
+        }
+        6 => {
+            // NSEC3 next hashed owner name (whole 5-octet groups, so that no padding is involved)
+            let hl = *rng.pick(&[5usize, 20, 250, 255, 260, 300]);
+            let h = rng.bytes(hl);
+            let mut rd = vec![1, 0, 0, 1, 2, 0xab, 0xcd, hl as u8];
+            rd.extend_from_slice(&h);
+            rd.extend_from_slice(&[0, 1, 0x40]);
+            ("NSEC3", format!("1 0 1 abcd {} A", rb::enc32hex(&h)), if hl <= 255 { Some(rd) } else { None }, "next hashed owner of NSEC3")
+        }
+        7 => {
+            // CAA tag: letters and digits, 1..255
+            let tl = *rng.pick(&[1usize, 5, 15, 254, 255, 256, 300]);
+            let tag: Vec<u8> = (0..tl).map(|_| *rng.pick(b"abcissuewild019")).collect();
+            let val = charstr_content(rng, rng.clone().range(0, 300), 1);
+            let mut rd = vec![128, tl as u8];
+            rd.extend_from_slice(&tag);
+            rd.extend_from_slice(&val);
+            ("CAA", format!("128 {} {}", String::from_utf8_lossy(&tag), spell_charstr(rng, &val, 1)), if tl <= 255 { Some(rd) } else { None }, "tag of CAA")
+        }
+        8 => {
+            // RFC 3597 generic data at the RDATA limit
+            let dl = *rng.pick(&[0usize, 1, 255, 256, 65534, 65535, 65536, 65540]);
+            let d = rng.bytes(dl);
+            let hexs = rb::enc16(&d);
+            // spread over several tokens
+            let mut t = format!("\\# {}", dl);
+            let mut i = 0;
+            while i < hexs.len() {
+                let n = (rng.range(1, 400) * 2).min(hexs.len() - i);
+                t.push(' ');
+                t.push_str(&hexs[i..i + n]);
+                i += n;
+            }
+            ("TYPE65280", t, if dl <= 65535 { Some(d) } else { None }, "generic RDATA")
+        }
+        9 => {
+            // TXT RDATA beyond 65535 octets: 256 or 257 strings of 255
+            let n = *rng.pick(&[255usize, 256, 257]);
+            let one = charstr_content(rng, 255, 0);
+            let sp = spell_charstr(rng, &one, 0);
+            let mut t = String::with_capacity(n * 257);
+            let mut rd = Vec::with_capacity(n * 256);
+            for i in 0..n {
+                if i > 0 {
+                    t.push(' ');
+                }
+                t.push_str(&sp);
+                rd.extend(cs(&one));
+            }
+            ("TXT", t, if rd.len() <= 65535 { Some(rd) } else { None }, "RDATA length of TXT")
+        }
+        _ => {
+            // DS digest: no limit of its own
+            let d = rng.bytes(len.max(1));
+            let mut rd = vec![0x30, 0x39, 13, 2];
+            rd.extend_from_slice(&d);
+            ("DS", format!("12345 13 2 {}", rb::enc16(&d)), Some(rd), "digest of DS")
+        }
+    };
+    let paren = rng.chance(1, 4);
+    let line = if paren { format!("x.example. 3600 IN {} ( {} )\n", ty, text) } else { format!("x.example. 3600 IN {} {}\n", ty, text) };
+    ctx::slot_write(idx, &format!("{}|{}", fam, what), line.as_bytes());
+    let ex = json!({"type": ty, "field": what, "length": len, "spelling": mode, "text": if line.len() > 1500 { format!("{}...", &line[..1500]) } else { line.clone() }});
+    let bytes = line.as_bytes().to_vec();
+    let res = ctx::catch(|| {
+        let mut zf = Zonefile::from(&bytes[..]).allow_invalid();
+        match zf.next_entry() {
+            Ok(Some(Entry::Record(r))) => {
+                let mut rd = Vec::new();
+                let adv = r.data().rdlen(false);
+                match r.data().compose_rdata(&mut rd) {
+                    Ok(()) => Ok(Some((rd, adv, r.rtype().to_int()))),
+                    Err(_) => Err("compose failed".to_string()),
+                }
+            }
+            Ok(_) => Err("no record".to_string()),
+            Err(e) => Ok(None).and_then(|x: Option<(Vec<u8>, Option<u16>, u16)>| { let _ = e; Ok(x) }),
+        }
+    });
+    let within = want.is_some();
+    c.eval(&("field-limit", ty, what, len.min(300), mode, within, paren));
+    match res {
+        Err(pi) => {
+            c.violation(&format!("field-limit:panic:{}", what.replace(' ', "-")), &format!("a {} of {} octets: reading the record and composing what the reader returned panics: {} at {}:{}", what, len, pi.msg, pi.file, pi.line), c.replay_of(fam, idx, ex));
+        }
+        Ok(Err(e)) => {
+            if within {
+                c.violation(&format!("field-limit:unusable-entry:{}", what.replace(' ', "-")), &format!("a {} of {} octets is within the limit: {}", what, len, e), c.replay_of(fam, idx, ex));
+            } else {
+                c.count("field_limit_refused_late", 1);
+            }
+        }
+        Ok(Ok(None)) => {
+            if within {
+                c.violation(&format!("field-limit:refused-within-limit:{}", what.replace(' ', "-")), &format!("a {} of {} octets (spelling {}) is within the limit but the record is refused", what, len, mode), c.replay_of(fam, idx, ex));
+            } else {
+                c.count("field_limit_over_limit_refused", 1);
+            }
+        }
+        Ok(Ok(Some((rd, adv, _t)))) => {
+            if let Some(a) = adv {
+                if a as usize != rd.len() {
+                    c.violation(&format!("field-limit:rdlen:{}", what.replace(' ', "-")), &format!("a {} of {} octets: the record the reader returned says its RDATA is {} octets and writes {}", what, len, a, rd.len()), c.replay_of(fam, idx, ex));
+                    return;
+                }
+            }
+            match want {
+                Some(wd) => {
+                    if rd != wd {
+                        let p = rd.iter().zip(wd.iter()).position(|(a, b)| a != b).unwrap_or(rd.len().min(wd.len()));
+                        c.violation(&format!("field-limit:content:{}", what.replace(' ', "-")), &format!("a {} of {} octets (spelling {}): the record reads as {} octets of RDATA, {} expected; first difference at {}: {} / {}", what, len, mode, rd.len(), wd.len(), p, hex(&rd[p.min(rd.len())..rd.len().min(p + 12)]), hex(&wd[p.min(wd.len())..wd.len().min(p + 12)])), c.replay_of(fam, idx, ex));
+                    } else {
+                        c.count("field_limit_within_limit_read_exactly", 1);
+                        if len == 255 {
+                            c.count("field_limit_exactly_on_the_limit", 1);
+                        }
+                    }
+                }
+                None => {
+                    c.violation(&format!("field-limit:accepted-over-limit:{}", what.replace(' ', "-")), &format!("a {} of {} octets (spelling {}) is more than the field can hold, yet the reader returns a record; its RDATA composes to {} octets starting {}", what, len, mode, rd.len(), hex(&rd[..rd.len().min(16)])), c.replay_of(fam, idx, ex));
+                }
+            }
+        }
+    }
+}
+
 pub fn run(c: &mut Ctx) {
-    c.families(4);
+    c.families(5);
     if let Some(r) = c.replay.clone() {
         if let Some(h) = r.get("extra").and_then(|e| e.get("input_hex")).and_then(|h| h.as_str()) {
             let t = unhex(h);
@@ -896,6 +1161,15 @@ pub fn run(c: &mut Ctx) {
         }
         let mut rng = c.case_rng(fam, idx);
         raw_octet_case(c, fam, idx, &mut rng);
+    }
+    let fam = "field-limit";
+    let total = c.total(30_000, 1_500_000);
+    for idx in c.cases(fam, total) {
+        if c.out_of_time() {
+            break;
+        }
+        let mut rng = c.case_rng(fam, idx);
+        field_limit_case(c, fam, idx, &mut rng);
     }
     let fam = "hostile";
     let total = c.total(600_000, 40_000_000);
@@ -984,6 +1258,9 @@ pub fn run(c: &mut Ctx) {
         c.floor("hostile_errors", 1000);
         c.floor("hostile_accepted", 100);
         c.floor("raw_octet_tokens_refused_either_way", 100);
+        c.floor("field_limit_within_limit_read_exactly", 100);
+        c.floor("field_limit_over_limit_refused", 100);
+        c.floor("field_limit_exactly_on_the_limit", 10);
         for k in ["comments", "blank_lines", "parens", "tabs", "relative", "inherit_owner", "omit_ttl", "dollar_ttl", "omit_class", "class_first", "lower_keywords", "crlf", "no_final_newline", "reorigin"] {
             c.floor(&format!("knob_{}", k), 10);
         }
